@@ -241,3 +241,41 @@ func vHarnessDenomsByOwner() {
 	all, aerr := s.k.Denoms(sdk.WrapSDKContext(s.ctx), &types.QueryDenomsRequest{})
 	vCheck(aerr == nil && len(all.Denoms) == 2, "C12: the full denom listing shows each denom once")
 }
+
+// ---------------- C06/C12: a request about one denom never touches another ----------------
+
+func vHarnessPnftOtherDenomUntouched() {
+	s := vNewScene()
+	s.createDenom(&s.d0, "d0", vID("d0"), s.A)
+	s.createDenom(&s.d1, "d1", vID("d1"), s.B)
+	c := sdk.WrapSDKContext(s.ctx)
+	var err error
+	switch vShapeP("kind", 2) {
+	case 0:
+		_, err = s.ms.DeleteDenom(c, &types.MsgDeleteDenomRequest{Id: s.d0.id, Remover: s.A})
+	case 1:
+		_, err = s.ms.UpdateDenom(c, &types.MsgUpdateDenomRequest{Id: s.d0.id, Name: "renamed", Updater: s.A})
+	case 2:
+		_, err = s.ms.TransferDenom(c, &types.MsgTransferDenomRequest{Id: s.d0.id, Sender: s.A, Receiver: s.C})
+	}
+	if err != nil {
+		return
+	}
+	vCover("request on the first denom accepted")
+	d, derr := s.k.GetDenom(s.ctx, s.d1.id)
+	vCheck(derr == nil, "C06/C12: a request about one denom never deletes another denom (ids may be prefixes of one another)")
+	if derr == nil {
+		vCheck(vAll(d.Owner == s.B, d.Name == "n", d.Id == s.d1.id), "C06/C12: a request about one denom never changes another denom")
+	}
+}
+
+func vShapeP(site string, max int) int {
+	n := vNondetInt(site)
+	vAssume(n >= 0 && n <= max)
+	for i := 0; i <= max; i++ {
+		if n == i {
+			return i
+		}
+	}
+	return 0
+}
